@@ -176,7 +176,10 @@ InitGenesis_E(s, e) ==
                !.batch = a.batch, !.comet = c.comet, !.cometOK = c.ok]
 
 (* genesis round trip (between blocks, or of the working state inside a block): validators, powers, params are exported; history is not *)
-ExportImport_G(s, e) == [ phase |-> s.phase \in {"in", "out"} /\ ~s.halted ]
+ExportImport_G(s, e) ==
+  [ phase |-> s.phase \in {"in", "out"} /\ ~s.halted,
+    \* ValidateGenesis refuses two validator records with one consensus key - a state only the plan deviation PlanReusesKey (open known finding) reaches
+    uniqueKeys |-> \A o1, o2 \in DOMAIN s.vals : o1 # o2 => s.vals[o1].key # s.vals[o2].key ]
 ExportImport_E(s, e) ==
   \* InitGenesis(exported) returns one update per last-power entry; a fresh engine starts from exactly those
   LET upd == [k \in {s.vals[o].key : o \in DOMAIN s.lastPow} |-> LET o == CHOOSE x \in DOMAIN s.lastPow : s.vals[x].key = k IN s.lastPow[o]]
